@@ -747,6 +747,9 @@ impl SimState {
             viol(&mut self.out, "C19", "counts-differ-from-states", format!("counts {:?} but states histogram {:?}", snap.counts, hist));
         }
         let total: usize = snap.counts.iter().sum();
+        if snap.total != total {
+            viol(&mut self.out, "C19", "total-not-sum-of-counts", format!("reported total {} but the per-state counts {:?} add up to {}", snap.total, snap.counts, total));
+        }
         if total != n_nonphony_wanted {
             viol(&mut self.out, "C19", "total-differs", format!("total {} but {} non-phony wanted steps", total, n_nonphony_wanted));
         }
